@@ -827,6 +827,21 @@ impl<K: CacheKey + 'static> AsyncCache<K> for MultiLayerCacheImpl<K> {
             }
         }
 
+        // Seen in no layer. A concurrent put stores into the first layer before it
+        // takes the key out of the slower ones: a lookup that passed the first layer
+        // before the put and reached the slower ones after it has seen the key
+        // nowhere although it was never absent. One more look at the faster layers
+        // settles it: a key that is in none of them now was absent at that moment.
+        if let Some((_, faster)) = self.layers.split_last() {
+            for (layer_index, layer) in faster.iter().enumerate() {
+                if let Ok(Some(value)) = layer.get(key).await {
+                    self.layer_hits[layer_index].fetch_add(1, Ordering::Relaxed);
+                    self.metrics.record_get(true, start_time.elapsed());
+                    return Ok(Some(value));
+                }
+            }
+        }
+
         // Not found in any layer
         self.metrics.record_get(false, start_time.elapsed());
         Ok(None)
@@ -880,14 +895,25 @@ impl<K: CacheKey + 'static> AsyncCache<K> for MultiLayerCacheImpl<K> {
                 return Ok(true);
             }
         }
+        // A concurrent put may have moved the key into the first layer behind this
+        // walk (see get): look at the faster layers once more
+        if let Some((_, faster)) = self.layers.split_last() {
+            for layer in faster {
+                if layer.contains(key).await? {
+                    return Ok(true);
+                }
+            }
+        }
         Ok(false)
     }
 
     async fn remove(&self, key: &K) -> CacheResult<bool> {
         let mut found = false;
 
-        // Remove from all layers
-        for layer in &self.layers {
+        // Remove from all layers, slowest first: a concurrent put stores into the
+        // first layer before it takes the key out of the slower ones, so a walk in
+        // that direction cannot pass a key that is only changing layers
+        for layer in self.layers.iter().rev() {
             if layer.remove(key).await? {
                 found = true;
             }
